@@ -18,6 +18,30 @@ CHECKS = {
  "C03": ("model-based PBT (proptest): executable transcription of the statement vs __check_auth, scripted policy/verifier mocks, real Ed25519 verifier, end-to-end probes",
          "Generated rule-set histories (add/remove rule, signer, policy, valid_until, ledger advance) on the example multisig account followed by crafted (signatures, context batch) probes through try_invoke_contract_check_auth and end-to-end require_auth; the verdict must equal an executable transcription of the statement (all supplied signatures verify; per context newest-first, type-specific before Default, unexpired rule whose signers/policies are met; signers outside the rule never count) and the mock policies' enforce log must be exactly the chosen rule's policies once per context.",
          "DESIGN.md §4 C03"),
+ "C04": ("model-based stateful PBT (proptest): RWA token with scripted compliance / identity-verifier mocks, gate matrix, supervisory-operation model",
+         "Generated histories of mint/transfer/transfer_from/approve/forced_transfer/burn/recover_balance/freeze/unfreeze/pause with flipped identity and compliance answers on a harness RWA token (library RWA + Pausable wiring; a tenth of the cases through the library compliance storage): a holder-initiated movement succeeds only with every gate open (pause, both address freezes, free balance, both identities, can_transfer, allowance), mint only with verified recipient and can_create, 0 <= frozen <= balance always, supervisory operations unfreeze the minimum, recovery moves the whole balance with its freeze status to the registered target only, and the compliance log gains exactly one exact entry per successful transfer/mint/burn.",
+         "DESIGN.md §4 C04"),
+ "C06": ("model-based stateful PBT (proptest) with explicit authorization subsets; full enumeration consistency after every step",
+         "Generated grant/revoke/renounce/set_role_admin (cycles, self-admin roles)/admin-transfer/renounce_admin histories and macro-guarded probes on a harness AccessControl contract, the nft-access-control example and the ownable example, callers by standing (admin, role admin, member, stranger) and auth mode: privileged effects only with the right principal's exact entry and standing, nothing passes after renounce, and after every step has_role/count/member-by-index/existing-roles describe exactly the model set with gap-free indices (256-role limit scenario included).",
+         "DESIGN.md §4 C06"),
+ "C07": ("model-based stateful PBT (proptest) with the ledger as an operation and TTL-boundary selectors (min_temp_entry_ttl = 1)",
+         "Generated offer(new, live_until)/cancel/accept/renounce/probe histories on the ownable example and the harness AccessControl admin transfer, offers replaced by longer- and shorter-lived ones, ledger moved to expiry-1/expiry/expiry+1 of current and earlier offers, every call with an auth mode: accept succeeds only for the live pending account with its own entry, never for a cancelled, replaced or expired offer, never twice; the holder keeps control until acceptance; renounce is refused while an offer is pending.",
+         "DESIGN.md §4 C07"),
+ "C08": ("model-based stateful PBT (proptest) over the timelock state machine with ready-ledger boundary selectors",
+         "Generated schedule/execute/cancel/set_min_delay/advance histories over a pool of operations with predecessor links (other op, never-scheduled, cancelled, own-hash) and delays from 0 to u32::MAX on a harness exposing the timelock library 1:1 plus a counting target: execution only when scheduled with delay >= the minimum then in force, ready, predecessor done and not done before; Done absorbing; failed target rolls everything back; every operation's reported state/ledger/predicates equal the model after every step; hash_operation deterministic and field-sensitive.",
+         "DESIGN.md §4 C08"),
+ "C09": ("model-based PBT (proptest) with hand-built controller credentials (arbitrary descriptor lists vs contexts), direct __check_auth probes",
+         "On the self-administered TimelockController example (0..2 executors) generated scheduling histories put the self-administration operation in every state, then adversarial probes invoke admin-only entry points with controller credentials carrying a generated Vec<OperationMeta> (0..3 descriptors, perturbed predecessor/salt/executor) directly, through a forwarder and through try_invoke_contract_check_auth with foreign/create contexts: an admin call takes effect only if a matching operation was Ready and is consumed by that very call with an executor's entry when executors exist; schedule/cancel/execute need role plus that account's entry; the documented happy path succeeds.",
+         "DESIGN.md §4 C09"),
+ "C12": ("exhaustive boundary lattice (deterministic) + PBT (proptest) against an exact num-bigint oracle, constructed near-bound triples",
+         "All triples of a 67-value (thorough 129) i128 boundary lattice x 3 roundings x {checked, panicking} evaluated exhaustively, plus generated triples of every bit length and constructed triples around the i128 fit boundary, the I256 variants on products fitting 256 bits, and Wad checked_mul/checked_div/from_ratio/pow/checked_pow: each result equals the exactly rounded BigInt quotient whenever it fits (also when x*y does not), fails exactly when d = 0 or it does not fit, panicking and checked variants agree, pow fails exactly when checked_pow is None.",
+         "DESIGN.md §4 C12"),
+ "C13": ("model-based stateful PBT (proptest) with end-of-ledger reference history and full past-query sweeps",
+         "Generated mint/burn/transfer/transfer_from/delegate/advance histories (many operations per ledger and gaps) on the fungible-votes example, a harness fungible votes token with burn, a harness NFT votes token and the bare votes library: voting units equal balances, votes equal the sum of units delegating to the account, total equals the sum of units, and for every past ledger and account the checkpoint queries equal the model's end-of-ledger value (later operations never rewrite the past); current/future queries are refused; checkpoints coalesce per ledger.",
+         "DESIGN.md §4 C13"),
+ "C19": ("model-based stateful PBT (proptest) with explicit nested authorization trees and per-field tampering",
+         "Generated forwards (fee/max-fee lattice, expirations around the ledger, pre-existing allowances, failing targets, user == forwarder, disallowed tokens) and allow-list histories on both fee-forwarder examples with library tokens and a Stellar Asset Contract as fee tokens and a logging target, each forward under one of 12 authorization modes (per-field tamper of token/max/expiration/target/fn/args, missing sub-invocation or relayer entry, stranger relayer): success only with the exact user tuple, 0 < fee <= max, live expiration, acceptable token and authorized relayer/executor; on success exactly fee moves user -> recipient, the target is invoked once with exactly (fn, args) and the residual allowance is as documented; on any failure nothing persists; the allow-list enumeration is a bijection over the allowed set.",
+         "DESIGN.md §4 C19"),
  "C02": ("model-based stateful PBT (proptest) with explicit authorization entries (no mock_all_auths)",
          "Generated histories of approve/transfer/transfer_from/burn/burn_from/mint/ledger-advance over nine fungible-token contracts, every call carrying an explicit authorization set in one of the modes Exact/Drop/Swap/Tamper/Surplus; safety oracle from the statement: a balance decreases only with the holder's exact entry or a spender's entry plus a live sufficient allowance that then drops by exactly the amount; allowances never exceed approved-minus-spent, are zero after live_until (also past the entry's storage TTL) and change only by the owner's approve or by being spent.",
          "DESIGN.md §4 C02"),
